@@ -155,6 +155,17 @@ Theorem C10_wrap_file_same_path :
 Proof. exact wrap_file_same. Qed.
 Print Assumptions C10_wrap_file_same_path.
 
+(* WrapV1 accepts every Option, hence also UseDataPadding / UseIndexPadding: at HEAD they are ignored --
+   whatever paddings are passed, the result is the one without them, i.e. (by C10_wrap_layout_any)
+   DataOffset = 51, IndexOffset = 51 + |x|, payload and index written back to back, and the header
+   never advertises an offset the bytes do not have *)
+Theorem C10_wrap_ignores_padding_options :
+  forall hdrdec srt o dpad ipad x,
+    wrap_bytes_opts hdrdec srt (mkwrapopts o dpad ipad) x = wrap_bytes_opts hdrdec srt (mkwrapopts o 0 0) x
+    /\ wrap_bytes_opts hdrdec srt (mkwrapopts o dpad ipad) x = wrap_bytes_with hdrdec srt o x.
+Proof. exact wrap_ignores_padding. Qed.
+Print Assumptions C10_wrap_ignores_padding_options.
+
 (* the section loop of LoadIndex terminates on every input (the model's fuel never runs out) *)
 Theorem C10_wrap_terminates :
   forall hdrdec srt o x, wrap_bytes_with hdrdec srt o x <> Err EFuel.
